@@ -93,6 +93,79 @@ theorem resolve_order (l : List Spec) :
   rw [resolve_eq]
   simp [sumP, List.flatMap_map]
 
+/-! ## 4a. priority dominates the order of naming
+
+If every pipeline of one group has a strictly smaller priority than every pipeline of another
+group, the combined pipeline is the first group's, then the second group's — whichever group was
+named first, with no assumption on names or on repeated keys. -/
+
+theorem insertSorted_append_left (x : Spec) (A B : List Spec) (h : ∀ b ∈ B, Spec.le x b = true) :
+    insertSorted x (A ++ B) = insertSorted x A ++ B := by
+  induction A with
+  | nil =>
+    cases B with
+    | nil => rfl
+    | cons b B => simp [insertSorted, h b (by simp)]
+  | cons y A ih =>
+    simp only [List.cons_append, insertSorted]
+    split
+    · rw [ih]; rfl
+    · rfl
+
+theorem insertSorted_append_right (y : Spec) (A B : List Spec) (h : ∀ a ∈ A, Spec.le y a = false) :
+    insertSorted y (A ++ B) = A ++ insertSorted y B := by
+  induction A with
+  | nil => rfl
+  | cons a A ih =>
+    simp only [List.cons_append, insertSorted, h a (by simp)]
+    rw [ih (fun a' ha' => h a' (by simp [ha']))]
+    rfl
+
+theorem sortSpecs_append_of_lt (l1 l2 : List Spec)
+    (hlt : ∀ a ∈ l1, ∀ b ∈ l2, a.priority < b.priority) :
+    sortSpecs (l1 ++ l2) = sortSpecs l1 ++ sortSpecs l2
+    ∧ sortSpecs (l2 ++ l1) = sortSpecs l1 ++ sortSpecs l2 := by
+  constructor
+  · induction l1 with
+    | nil => rfl
+    | cons x l1 ih =>
+      simp only [List.cons_append, sortSpecs]
+      rw [ih (fun a ha b hb => hlt a (by simp [ha]) b hb)]
+      apply insertSorted_append_left
+      intro b hb
+      have hb' := (sortSpecs_perm' l2).mem_iff.1 hb
+      have := hlt x (by simp) b hb'
+      simp [Spec.le, this]
+  · induction l2 with
+    | nil => simp [sortSpecs]
+    | cons y l2 ih =>
+      simp only [List.cons_append, sortSpecs]
+      rw [ih (fun a ha b hb => hlt a ha b (by simp [hb]))]
+      apply insertSorted_append_right
+      intro a ha
+      have ha' := (sortSpecs_perm' l1).mem_iff.1 ha
+      have := hlt a ha' y (by simp)
+      simp only [Spec.le, Bool.or_eq_false_iff, Bool.and_eq_false_iff, decide_eq_false_iff_not,
+        beq_eq_false_iff_ne, ne_eq]
+      exact ⟨by omega, Or.inl (by omega)⟩
+
+theorem sumP_append (a b : List P) : sumP (a ++ b) = (sumP a).add (sumP b) := by
+  simp [sumP, P.add]
+
+theorem resolve_priority_dominates (l1 l2 : List Spec)
+    (hlt : ∀ a ∈ l1, ∀ b ∈ l2, a.priority < b.priority) :
+    resolve (l1 ++ l2) = (resolve l1).add (resolve l2)
+    ∧ resolve (l2 ++ l1) = (resolve l1).add (resolve l2) := by
+  obtain ⟨h1, h2⟩ := sortSpecs_append_of_lt l1 l2 hlt
+  simp only [resolve_eq, h1, h2, List.map_append, sumP_append, and_self]
+
+/-- non-vacuity: the priority-10 pipeline comes first although it was named last -/
+example :
+    let a : Spec := ⟨10, 5, ⟨[1], [], [], []⟩⟩
+    let b : Spec := ⟨20, 0, ⟨[2], [], [], []⟩⟩
+    (∀ x ∈ [a], ∀ y ∈ [b], x.priority < y.priority) ∧ (resolve ([b] ++ [a])).items = [1, 2] := by
+  decide
+
 /-! ## 5. backend pipeline, then the user's, then the output format's -/
 
 theorem backend_order (b u f : P) :
